@@ -619,8 +619,16 @@ class unyt_array(np.ndarray):
                 dtype = input_array.dtype
             obj = input_array.view(type=cls, dtype=dtype)
             obj.units = input_units
-            if registry is not None:
-                obj.units.registry = registry
+            if registry is not None and input_units.registry is not registry:
+                # bind a copy: the caller's Unit object may be a shared one (the
+                # units exported by unyt, a registry's cached units)
+                obj.units = Unit(
+                    input_units.expr,
+                    base_value=input_units.base_value,
+                    base_offset=input_units.base_offset,
+                    dimensions=input_units.dimensions,
+                    registry=registry,
+                )
             obj.name = name
             return obj
         if isinstance(input_array, unyt_array):
